@@ -1205,6 +1205,20 @@ class XmlDocument(SubXmlBase):
         for child in element.getchildren():
             retval.append(self.from_element(ctx, serializer, child))
 
+        # the occurrence attributes of the item type say how many items the
+        # array can hold: they are what the schema says about the item element.
+        if self.validator is self.SOFT_VALIDATION:
+            ser_attrs = self.get_cls_attrs(serializer)
+            if len(retval) < ser_attrs.min_occurs:
+                raise ValidationError(len(retval),
+                               "Array has %%d items, it must have at least %d"
+                                                        % ser_attrs.min_occurs)
+
+            if len(retval) > ser_attrs.max_occurs:
+                raise ValidationError(len(retval),
+                               "Array has %%d items, it must have at most %d"
+                                                        % ser_attrs.max_occurs)
+
         return retval
 
     def iterable_from_element(self, ctx, cls, element):
